@@ -424,8 +424,8 @@ func ruleDur4(c *Ctx, r *Reporter) {
 	}
 	r.guard(len(fns), 8, "functions in store.go, file.go, dbkit/atomic.go")
 	allowed := map[string]string{
-		"dbkit.AtomicWriteFile$1|os.File.Close": "best-effort cleanup of the temp file in the deferred closure (the real Close on the success path is checked)",
-		"dbkit.AtomicWriteFile$1|os.Remove":     "best-effort removal of the temp file in the deferred closure (a no-op after a successful rename)",
+		"dbkit.AtomicWriteFile$1|os.File.Close":     "best-effort cleanup of the temp file in the deferred closure (the real Close on the success path is checked)",
+		"dbkit.AtomicWriteFile$1|os.Remove":         "best-effort removal of the temp file in the deferred closure (a no-op after a successful rename)",
 		"dbkit.AtomicWriteFile|defer os.File.Close": "closing the read-only directory handle after fsync",
 	}
 	n := 0
